@@ -64,6 +64,7 @@ func (e *Engine) initExternals() {
 	e.initSyncExternals()
 	e.initMiscExternals()
 	e.initProtoExternals()
+	e.initJSONExternals()
 
 	e.extPrefix = append(e.extPrefix,
 		prefixExt{"github.com/sirupsen/logrus.", e.noopExternal},
